@@ -37,6 +37,8 @@ class Mis(Exception):
 
 
 def approx(a, b):
+    if isinstance(a, complex) or isinstance(b, complex):
+        return a == b or (a != a and b != b)
     a, b = float(a), float(b)
     if math.isnan(a) and math.isnan(b):
         return True
